@@ -338,7 +338,7 @@ def cases(draw):
         if ctype != "event_count":
             c["condition"]["field"] = draw(st.sampled_from(["cnt", "user", "other"]))
         if ctype == "value_percentile":
-            c["condition"]["percentile"] = draw(st.integers(1, 99))
+            c["condition"]["percentile"] = draw(st.sampled_from([0, 0, 1, 50, 95, 99, 100]))
     corrs = [{"title": "corr_main", "name": "cmain", "correlation": c}]
     if draw(st.integers(0, 3)) == 0:
         oc = {"type": "event_count", "rules": ["cmain"], "timespan": "1h", "condition": {"gte": 2}}
